@@ -582,12 +582,10 @@ registry! {
     c04_split_array_5_n0, "C04", quick, 12, alloc, 300 => c15::array(b"5", Some(5), 0, false); // a 5-element command whose '*5' header arrives alone in a read: both decoders must ask for more bytes (codec) / not accept (parser)
     c04_split_array_9_n1, "C04", thorough, 12, alloc, 300 => c15::array(b"9", Some(9), 1, false); // '*9' header + one complete element in the first read
     c13_twin, "C13", experimental, 8, plain, 300 => c13::twin();
-    c13_fold_2, "C13", experimental, 8, plain, 900 => c13::fold(2, false); // 2 LWW updates of one key in the compacted segments: symbolic stamps (two replicas may share a time), bytes, tombstones; tombstone cutoff = any u64
-    c13_fold_2_outside, "C13", experimental, 8, plain, 1200 => c13::fold(2, true); // same + optionally one update of the key in a segment/checkpoint outside the compaction
-    c13_fold_3, "C13", experimental, 8, plain, 1800 => c13::fold(3, false); // 3 LWW updates of one key in the compacted segments
-    c11_plan_2, "C11", experimental, 8, plain, 600 => c11::segment_plan(2); // recover()'s segment selection: 2 listed segments, ids 1..n in either list order, minimum stamps from {5,7} (equal minima included), optional checkpoint with last_segment_id in 0..=3
-    c11_plan_3, "C11", experimental, 8, plain, 900 => c11::segment_plan(3); // same with 3 listed segments
-    c08_recovered_then_write, "C08", experimental, 6, noexec, 900 => c08::recovered_then_write(); // checkpoint entry (any stamp/author) enters through the ApplyRecoveredState arm (S10), then a local write: its stamp must exceed the recovered one
+    c13_fold_2, "C13", experimental, 8, plain, 900 => c13::fold(2, 0); // 2 LWW updates of one key in the compacted segments: symbolic stamps (two replicas may share a time), bytes, tombstones; tombstone cutoff = any u64
+    c13_fold_2_outside, "C13", experimental, 8, plain, 1200 => c13::fold(2, 1); // same + optionally one update of the key in a segment/checkpoint outside the compaction
+    c13_fold_3, "C13", experimental, 8, plain, 1800 => c13::fold(3, 0); // 3 LWW updates of one key in the compacted segments
+    c08_recovered_then_write, "C08", quick, 6, noexec, 900 => c08::recovered_then_write(); // checkpoint entry (any stamp/author) enters through the ApplyRecoveredState arm (S10), then a local write: its stamp must exceed the recovered one
     c19_ring_l3_lookup_rf2, "C19", experimental, 10, ring, 900 => c19::ring(3, 0, 2); // layout 3 (2 members x 2 virtual nodes), key position = any u64, rf = 2: lookup
     c19_ring_l3_gossip_rf2, "C19", experimental, 10, ring, 900 => c19::ring(3, 1, 2); // layout 3, rf = 2: gossip targets
     c19_ring_l4_lookup_rf2, "C19", experimental, 10, ring, 900 => c19::ring(4, 0, 2); // layout 4 (3 members x 1 virtual node), rf = 2: lookup
@@ -595,23 +593,21 @@ registry! {
     c19_ring_l4_lookup_rf4, "C19", experimental, 10, ring, 900 => c19::ring(4, 0, 4); // layout 4, rf = 4 > cluster size
     c19_ring_l4_gossip_rf3, "C19", experimental, 10, ring, 900 => c19::ring(4, 1, 3); // layout 4, rf = 3: gossip targets
     c19_ring_l4_removal_rf2, "C19", experimental, 10, ring, 900 => c19::ring(4, 2, 2); // layout 4, rf = 2: removal of one member
-    c16_arm_setex, "C16", experimental, 12, ascii, 900 => c16::arm_spec(b"SETEX", &[A::S(1), A::D(1), A::S(1)], c16arm!(SETEX)); // SETEX arm of both parsers: key, seconds = optional '-' + 1 digit, value
-    c16_arm_lmove, "C16", experimental, 12, ascii, 900 => c16::arm_spec(b"LMOVE", &[A::S(1), A::S(1), A::K(b"LEFT"), A::K(b"RIGHT")], c16arm!(LMOVE)); // LMOVE arm: direction keywords in any letter case
-    c13_fold_2_c2, "C13", experimental, 8, plain, 900 => c13::fold(2, false); // as c13_fold_2 with the 2-slot container model
-    c13_fold_2_outside_c2, "C13", experimental, 8, plain, 1200 => c13::fold(2, true); // as c13_fold_2_outside with the 2-slot container model
-    c13_fold_3_c2, "C13", experimental, 8, plain, 1800 => c13::fold(3, false); // 3 updates, 2-slot container model
-    c13_twin_c2, "C13", experimental, 8, plain, 300 => c13::twin();
+    c13_fold_2_c2, "C13", quick, 8, plain, 1200 => c13::fold(2, 0); // as c13_fold_2 with the 2-slot container model
+    c13_fold_2_outside_c2, "C13", experimental, 8, plain, 1200 => c13::fold(2, 1); // as c13_fold_2_outside with the 2-slot container model
+    c13_fold_3_c2, "C13", experimental, 8, plain, 1800 => c13::fold(3, 0); // 3 updates, 2-slot container model
+    c13_twin_c2, "C13", quick, 8, plain, 300 => c13::twin();
     c08_state_write_c2, "C08", experimental,    6, plain, 600 => c08::state_step(0); // one key, LWW values, arbitrary I-state + arbitrary remote delta, then record_write
     c08_state_delete_c2, "C08", experimental,    6, plain, 600 => c08::state_step(1); // same, then record_delete
-    c06_pair_set_set_pre1_c2, "C06", experimental, 6, plain, 1500 => c06::pair(0, 0, 1); // A: SET, B: SET on one key, pre-state common LWW value; symbolic clocks and bytes; deltas cross-delivered once
+    c06_pair_set_set_pre1_c2, "C06", thorough, 6, plain, 1500 => c06::pair(0, 0, 1); // A: SET, B: SET on one key, pre-state common LWW value; symbolic clocks and bytes; deltas cross-delivered once
     c06_pair_set_hset_pre0_c2, "C06", experimental, 6, plain, 1500 => c06::pair(0, 2, 0); // A: SET, B: HSET on one key, pre-state absent; symbolic clocks and bytes; deltas cross-delivered once
     c06_pair_del_hset_pre1_c2, "C06", experimental, 6, plain, 1500 => c06::pair(1, 2, 1); // A: DEL, B: HSET on one key, pre-state common LWW value; symbolic clocks and bytes; deltas cross-delivered once
     c06_pair_hset_hset_pre0_c2, "C06", experimental, 6, plain, 1500 => c06::pair(2, 2, 0); // A: HSET, B: HSET on one key, pre-state absent; symbolic clocks and bytes; deltas cross-delivered once
     c06_pair_hset_hdel_pre0_c2, "C06", experimental, 6, plain, 1500 => c06::pair(2, 3, 0); // A: HSET, B: HDEL on one key, pre-state absent; symbolic clocks and bytes; deltas cross-delivered once
     c06_dup_reorder_c2, "C06", experimental, 6, plain, 1500 => c06::dup_reorder(); // SET/SET with each delta delivered twice
     c18_bucket_order_3_c2, "C18", experimental, 40, hasher, 600 => c18::bucket_order(3); // 3 arbitrary key digests, all 6 orders
-    c18_state_order_d0_c2, "C18", experimental, 12, hasher, 900 => c18::state_insertion_order(0); // keys a,b with symbolic LWW values, two insertion orders, 1 bucket
-    c18_sound_hash_c2, "C18", experimental, 52, hasher, 900 => c18::key_digest_sound(2); // hash {f} with equal outer stamp, different field registers
+    c18_state_order_d0_c2, "C18", quick, 12, hasher, 900 => c18::state_insertion_order(0); // keys a,b with symbolic LWW values, two insertion orders, 1 bucket
+    c18_sound_hash_c2, "C18", quick, 52, hasher, 900 => c18::key_digest_sound(2); // hash {f} with equal outer stamp, different field registers
     c07_gcounter_comm_c2, "C07", experimental, 8, plain, 2400 => c07::gcounter_law(0); // 2 replicas, symbolic u32 counts and presence
     c07_gcounter_assoc_c2, "C07", experimental, 8, plain, 2400 => c07::gcounter_law(2); // 2 replicas, symbolic u32 counts and presence
     c07_pncounter_comm_c2, "C07", experimental, 8, plain, 2400 => c07::pncounter_law(0); // 2 replicas, symbolic u32 increments, 1 decrement
@@ -626,7 +622,7 @@ registry! {
     c07_hash_f_idem_c2, "C07", experimental, 8, plain, 2400 => c07::hash_law(1, false); // hash over field f: symbolic register, stamps, expiry
     c07_hash_f_assoc_c2, "C07", experimental, 8, plain, 2400 => c07::hash_law(2, false); // hash over field f: symbolic register, stamps, expiry
     c07_hash_fg_assoc_c2, "C07", experimental, 8, plain, 3000 => c07::hash_law(2, true); // hash over fields f,g
-    c07_mixed_comm_c2, "C07", experimental, 8, plain, 2400 => c07::mixed_comm(); // LWW vs hash{f}: type-mismatch path
+    c07_mixed_comm_c2, "C07", thorough, 8, plain, 2400 => c07::mixed_comm(); // LWW vs hash{f}: type-mismatch path
     c07_mixed_assoc_hlh_c2, "C07", experimental, 8, plain, 2400 => c07::mixed_assoc_hlh(); // (Hash,Lww,Hash), concrete payloads, symbolic distinct stamps
     c06_observers_hset_hdel_causal_preg_c2, "C06", experimental, 6, plain, 2400 => c06::observers(2, 3, true, true); // A: HSET, B: HDEL after seeing A; observers holding hash {g} apply both deltas in both orders
     c06_observers_hset_hdel_causal_c2, "C06", experimental, 6, plain, 2400 => c06::observers(2, 3, true, false); // A: HSET, B: HDEL after seeing A; observers without the key apply both deltas in both orders
@@ -636,87 +632,153 @@ registry! {
     c06_glue_hash_f_c2, "C06", experimental, 8, recexec, 900 => c06::glue_hash(false); // glue: hash deltas {f} then {f} through apply_remote_delta_impl (S11), recording executor; served field == replication state
     c06_glue_hash_fg_c2, "C06", experimental, 8, recexec, 1200 => c06::glue_hash(true); // glue: hash deltas {f} then {f,g}
     c06_glue_lww_c2, "C06", experimental, 8, recexec, 900 => c06::glue_lww(); // glue: two LWW deltas (values / tombstones, any stamp order); GET serves what the state says
-    c08_clock_flushall_c2, "C08", experimental, 6, plain, 600 => c08::clock_monotone(0); // FLUSHALL through record_mutation_post_execute (S11): the clock does not move backwards
-    c08_clock_flushdb_c2, "C08", experimental, 6, plain, 600 => c08::clock_monotone(1); // FLUSHDB
+    c08_clock_flushall_c2, "C08", quick, 6, plain, 600 => c08::clock_monotone(0); // FLUSHALL through record_mutation_post_execute (S11): the clock does not move backwards
+    c08_clock_flushdb_c2, "C08", thorough, 6, plain, 600 => c08::clock_monotone(1); // FLUSHDB
     c08_clock_set_c2, "C08", experimental, 6, plain, 600 => c08::clock_monotone(2); // SET of another key
-    c08_clock_del_c2, "C08", experimental, 6, plain, 600 => c08::clock_monotone(3); // DEL of an absent key
+    c08_clock_del_c2, "C08", thorough, 6, plain, 600 => c08::clock_monotone(3); // DEL of an absent key
     c08_clock_hset_c2, "C08", experimental, 6, plain, 600 => c08::clock_monotone(4); // HSET
-    c08_clock_hdel_c2, "C08", experimental, 6, plain, 600 => c08::clock_monotone(5); // HDEL of an absent hash
+    c08_clock_hdel_c2, "C08", thorough, 6, plain, 600 => c08::clock_monotone(5); // HDEL of an absent hash
     c08_clock_incr_c2, "C08", experimental, 6, plain, 600 => c08::clock_monotone(6); // INCR (executor holds nothing)
-    c08_clock_get_c2, "C08", experimental, 6, plain, 600 => c08::clock_monotone(7); // GET (not a mutation)
-    c08_clock_ping_c2, "C08", experimental, 6, plain, 600 => c08::clock_monotone(8); // PING
-    c16_armv_get, "C16", experimental, 12, ascii, 900 => c16::arm_spec(b"GET", &[A::S(1)], c16arm!(GET)); // GET arm of both parsers (S7), 1 argument(s): keys/values 1 symbolic byte, numbers 1 symbolic digit with optional sign, keywords in any letter case
-    c16_armv_set, "C16", experimental, 12, ascii, 900 => c16::arm_spec(b"SET", &[A::S(1), A::S(1)], c16arm!(SET)); // SET arm of both parsers (S7), 2 argument(s): keys/values 1 symbolic byte, numbers 1 symbolic digit with optional sign, keywords in any letter case
-    c16_armv_set_ex, "C16", experimental, 12, ascii, 900 => c16::arm_spec(b"SET", &[A::S(1), A::S(1), A::K(b"EX"), A::D(1)], c16arm!(SET)); // SET arm of both parsers (S7), 4 argument(s): keys/values 1 symbolic byte, numbers 1 symbolic digit with optional sign, keywords in any letter case
-    c16_armv_set_px, "C16", experimental, 12, ascii, 900 => c16::arm_spec(b"SET", &[A::S(1), A::S(1), A::K(b"PX"), A::D(1)], c16arm!(SET)); // SET arm of both parsers (S7), 4 argument(s): keys/values 1 symbolic byte, numbers 1 symbolic digit with optional sign, keywords in any letter case
-    c16_armv_set_nx, "C16", experimental, 12, ascii, 900 => c16::arm_spec(b"SET", &[A::S(1), A::S(1), A::K(b"NX")], c16arm!(SET)); // SET arm of both parsers (S7), 3 argument(s): keys/values 1 symbolic byte, numbers 1 symbolic digit with optional sign, keywords in any letter case
-    c16_armv_set_xx_get, "C16", experimental, 12, ascii, 900 => c16::arm_spec(b"SET", &[A::S(1), A::S(1), A::K(b"XX"), A::K(b"GET")], c16arm!(SET)); // SET arm of both parsers (S7), 4 argument(s): keys/values 1 symbolic byte, numbers 1 symbolic digit with optional sign, keywords in any letter case
-    c16_armv_setex, "C16", experimental, 12, ascii, 900 => c16::arm_spec(b"SETEX", &[A::S(1), A::D(1), A::S(1)], c16arm!(SETEX)); // SETEX arm of both parsers (S7), 3 argument(s): keys/values 1 symbolic byte, numbers 1 symbolic digit with optional sign, keywords in any letter case
-    c16_armv_psetex, "C16", experimental, 12, ascii, 900 => c16::arm_spec(b"PSETEX", &[A::S(1), A::D(1), A::S(1)], c16arm!(PSETEX)); // PSETEX arm of both parsers (S7), 3 argument(s): keys/values 1 symbolic byte, numbers 1 symbolic digit with optional sign, keywords in any letter case
-    c16_armv_setnx, "C16", experimental, 12, ascii, 900 => c16::arm_spec(b"SETNX", &[A::S(1), A::S(1)], c16arm!(SETNX)); // SETNX arm of both parsers (S7), 2 argument(s): keys/values 1 symbolic byte, numbers 1 symbolic digit with optional sign, keywords in any letter case
-    c16_armv_getset, "C16", experimental, 12, ascii, 900 => c16::arm_spec(b"GETSET", &[A::S(1), A::S(1)], c16arm!(GETSET)); // GETSET arm of both parsers (S7), 2 argument(s): keys/values 1 symbolic byte, numbers 1 symbolic digit with optional sign, keywords in any letter case
-    c16_armv_append, "C16", experimental, 12, ascii, 900 => c16::arm_spec(b"APPEND", &[A::S(1), A::S(1)], c16arm!(APPEND)); // APPEND arm of both parsers (S7), 2 argument(s): keys/values 1 symbolic byte, numbers 1 symbolic digit with optional sign, keywords in any letter case
-    c16_armv_strlen, "C16", experimental, 12, ascii, 900 => c16::arm_spec(b"STRLEN", &[A::S(1)], c16arm!(STRLEN)); // STRLEN arm of both parsers (S7), 1 argument(s): keys/values 1 symbolic byte, numbers 1 symbolic digit with optional sign, keywords in any letter case
-    c16_armv_incr, "C16", experimental, 12, ascii, 900 => c16::arm_spec(b"INCR", &[A::S(1)], c16arm!(INCR)); // INCR arm of both parsers (S7), 1 argument(s): keys/values 1 symbolic byte, numbers 1 symbolic digit with optional sign, keywords in any letter case
-    c16_armv_decr, "C16", experimental, 12, ascii, 900 => c16::arm_spec(b"DECR", &[A::S(1)], c16arm!(DECR)); // DECR arm of both parsers (S7), 1 argument(s): keys/values 1 symbolic byte, numbers 1 symbolic digit with optional sign, keywords in any letter case
-    c16_armv_incrby, "C16", experimental, 12, ascii, 900 => c16::arm_spec(b"INCRBY", &[A::S(1), A::D(1)], c16arm!(INCRBY)); // INCRBY arm of both parsers (S7), 2 argument(s): keys/values 1 symbolic byte, numbers 1 symbolic digit with optional sign, keywords in any letter case
-    c16_armv_decrby, "C16", experimental, 12, ascii, 900 => c16::arm_spec(b"DECRBY", &[A::S(1), A::D(1)], c16arm!(DECRBY)); // DECRBY arm of both parsers (S7), 2 argument(s): keys/values 1 symbolic byte, numbers 1 symbolic digit with optional sign, keywords in any letter case
-    c16_armv_del, "C16", experimental, 12, ascii, 900 => c16::arm_spec(b"DEL", &[A::S(1), A::S(1)], c16arm!(DEL)); // DEL arm of both parsers (S7), 2 argument(s): keys/values 1 symbolic byte, numbers 1 symbolic digit with optional sign, keywords in any letter case
-    c16_armv_exists, "C16", experimental, 12, ascii, 900 => c16::arm_spec(b"EXISTS", &[A::S(1)], c16arm!(EXISTS)); // EXISTS arm of both parsers (S7), 1 argument(s): keys/values 1 symbolic byte, numbers 1 symbolic digit with optional sign, keywords in any letter case
-    c16_armv_type, "C16", experimental, 12, ascii, 900 => c16::arm_spec(b"TYPE", &[A::S(1)], c16arm!(TYPE)); // TYPE arm of both parsers (S7), 1 argument(s): keys/values 1 symbolic byte, numbers 1 symbolic digit with optional sign, keywords in any letter case
-    c16_armv_expire, "C16", experimental, 12, ascii, 900 => c16::arm_spec(b"EXPIRE", &[A::S(1), A::D(1)], c16arm!(EXPIRE)); // EXPIRE arm of both parsers (S7), 2 argument(s): keys/values 1 symbolic byte, numbers 1 symbolic digit with optional sign, keywords in any letter case
-    c16_armv_expire_nx, "C16", experimental, 12, ascii, 900 => c16::arm_spec(b"EXPIRE", &[A::S(1), A::D(1), A::K(b"NX")], c16arm!(EXPIRE)); // EXPIRE arm of both parsers (S7), 3 argument(s): keys/values 1 symbolic byte, numbers 1 symbolic digit with optional sign, keywords in any letter case
-    c16_armv_expire_gt, "C16", experimental, 12, ascii, 900 => c16::arm_spec(b"EXPIRE", &[A::S(1), A::D(1), A::K(b"GT")], c16arm!(EXPIRE)); // EXPIRE arm of both parsers (S7), 3 argument(s): keys/values 1 symbolic byte, numbers 1 symbolic digit with optional sign, keywords in any letter case
-    c16_armv_pexpire, "C16", experimental, 12, ascii, 900 => c16::arm_spec(b"PEXPIRE", &[A::S(1), A::D(1)], c16arm!(PEXPIRE)); // PEXPIRE arm of both parsers (S7), 2 argument(s): keys/values 1 symbolic byte, numbers 1 symbolic digit with optional sign, keywords in any letter case
-    c16_armv_expireat, "C16", experimental, 12, ascii, 900 => c16::arm_spec(b"EXPIREAT", &[A::S(1), A::D(1)], c16arm!(EXPIREAT)); // EXPIREAT arm of both parsers (S7), 2 argument(s): keys/values 1 symbolic byte, numbers 1 symbolic digit with optional sign, keywords in any letter case
-    c16_armv_ttl, "C16", experimental, 12, ascii, 900 => c16::arm_spec(b"TTL", &[A::S(1)], c16arm!(TTL)); // TTL arm of both parsers (S7), 1 argument(s): keys/values 1 symbolic byte, numbers 1 symbolic digit with optional sign, keywords in any letter case
-    c16_armv_pttl, "C16", experimental, 12, ascii, 900 => c16::arm_spec(b"PTTL", &[A::S(1)], c16arm!(PTTL)); // PTTL arm of both parsers (S7), 1 argument(s): keys/values 1 symbolic byte, numbers 1 symbolic digit with optional sign, keywords in any letter case
-    c16_armv_persist, "C16", experimental, 12, ascii, 900 => c16::arm_spec(b"PERSIST", &[A::S(1)], c16arm!(PERSIST)); // PERSIST arm of both parsers (S7), 1 argument(s): keys/values 1 symbolic byte, numbers 1 symbolic digit with optional sign, keywords in any letter case
-    c16_armv_lpush, "C16", experimental, 12, ascii, 900 => c16::arm_spec(b"LPUSH", &[A::S(1), A::S(1)], c16arm!(LPUSH)); // LPUSH arm of both parsers (S7), 2 argument(s): keys/values 1 symbolic byte, numbers 1 symbolic digit with optional sign, keywords in any letter case
-    c16_armv_rpush, "C16", experimental, 12, ascii, 900 => c16::arm_spec(b"RPUSH", &[A::S(1), A::S(1), A::S(1)], c16arm!(RPUSH)); // RPUSH arm of both parsers (S7), 3 argument(s): keys/values 1 symbolic byte, numbers 1 symbolic digit with optional sign, keywords in any letter case
-    c16_armv_lpop, "C16", experimental, 12, ascii, 900 => c16::arm_spec(b"LPOP", &[A::S(1)], c16arm!(LPOP)); // LPOP arm of both parsers (S7), 1 argument(s): keys/values 1 symbolic byte, numbers 1 symbolic digit with optional sign, keywords in any letter case
-    c16_armv_rpop, "C16", experimental, 12, ascii, 900 => c16::arm_spec(b"RPOP", &[A::S(1)], c16arm!(RPOP)); // RPOP arm of both parsers (S7), 1 argument(s): keys/values 1 symbolic byte, numbers 1 symbolic digit with optional sign, keywords in any letter case
-    c16_armv_llen, "C16", experimental, 12, ascii, 900 => c16::arm_spec(b"LLEN", &[A::S(1)], c16arm!(LLEN)); // LLEN arm of both parsers (S7), 1 argument(s): keys/values 1 symbolic byte, numbers 1 symbolic digit with optional sign, keywords in any letter case
-    c16_armv_lrange, "C16", experimental, 12, ascii, 900 => c16::arm_spec(b"LRANGE", &[A::S(1), A::D(1), A::D(1)], c16arm!(LRANGE)); // LRANGE arm of both parsers (S7), 3 argument(s): keys/values 1 symbolic byte, numbers 1 symbolic digit with optional sign, keywords in any letter case
-    c16_armv_lindex, "C16", experimental, 12, ascii, 900 => c16::arm_spec(b"LINDEX", &[A::S(1), A::D(1)], c16arm!(LINDEX)); // LINDEX arm of both parsers (S7), 2 argument(s): keys/values 1 symbolic byte, numbers 1 symbolic digit with optional sign, keywords in any letter case
-    c16_armv_lset, "C16", experimental, 12, ascii, 900 => c16::arm_spec(b"LSET", &[A::S(1), A::D(1), A::S(1)], c16arm!(LSET)); // LSET arm of both parsers (S7), 3 argument(s): keys/values 1 symbolic byte, numbers 1 symbolic digit with optional sign, keywords in any letter case
-    c16_armv_ltrim, "C16", experimental, 12, ascii, 900 => c16::arm_spec(b"LTRIM", &[A::S(1), A::D(1), A::D(1)], c16arm!(LTRIM)); // LTRIM arm of both parsers (S7), 3 argument(s): keys/values 1 symbolic byte, numbers 1 symbolic digit with optional sign, keywords in any letter case
-    c16_armv_rpoplpush, "C16", experimental, 12, ascii, 900 => c16::arm_spec(b"RPOPLPUSH", &[A::S(1), A::S(1)], c16arm!(RPOPLPUSH)); // RPOPLPUSH arm of both parsers (S7), 2 argument(s): keys/values 1 symbolic byte, numbers 1 symbolic digit with optional sign, keywords in any letter case
-    c16_armv_lmove, "C16", experimental, 12, ascii, 900 => c16::arm_spec(b"LMOVE", &[A::S(1), A::S(1), A::K(b"LEFT"), A::K(b"RIGHT")], c16arm!(LMOVE)); // LMOVE arm of both parsers (S7), 4 argument(s): keys/values 1 symbolic byte, numbers 1 symbolic digit with optional sign, keywords in any letter case
-    c16_armv_lmove_rl, "C16", experimental, 12, ascii, 900 => c16::arm_spec(b"LMOVE", &[A::S(1), A::S(1), A::K(b"RIGHT"), A::K(b"LEFT")], c16arm!(LMOVE)); // LMOVE arm of both parsers (S7), 4 argument(s): keys/values 1 symbolic byte, numbers 1 symbolic digit with optional sign, keywords in any letter case
-    c16_armv_sadd, "C16", experimental, 12, ascii, 900 => c16::arm_spec(b"SADD", &[A::S(1), A::S(1)], c16arm!(SADD)); // SADD arm of both parsers (S7), 2 argument(s): keys/values 1 symbolic byte, numbers 1 symbolic digit with optional sign, keywords in any letter case
-    c16_armv_srem, "C16", experimental, 12, ascii, 900 => c16::arm_spec(b"SREM", &[A::S(1), A::S(1)], c16arm!(SREM)); // SREM arm of both parsers (S7), 2 argument(s): keys/values 1 symbolic byte, numbers 1 symbolic digit with optional sign, keywords in any letter case
-    c16_armv_sismember, "C16", experimental, 12, ascii, 900 => c16::arm_spec(b"SISMEMBER", &[A::S(1), A::S(1)], c16arm!(SISMEMBER)); // SISMEMBER arm of both parsers (S7), 2 argument(s): keys/values 1 symbolic byte, numbers 1 symbolic digit with optional sign, keywords in any letter case
-    c16_armv_smembers, "C16", experimental, 12, ascii, 900 => c16::arm_spec(b"SMEMBERS", &[A::S(1)], c16arm!(SMEMBERS)); // SMEMBERS arm of both parsers (S7), 1 argument(s): keys/values 1 symbolic byte, numbers 1 symbolic digit with optional sign, keywords in any letter case
-    c16_armv_scard, "C16", experimental, 12, ascii, 900 => c16::arm_spec(b"SCARD", &[A::S(1)], c16arm!(SCARD)); // SCARD arm of both parsers (S7), 1 argument(s): keys/values 1 symbolic byte, numbers 1 symbolic digit with optional sign, keywords in any letter case
-    c16_armv_spop, "C16", experimental, 12, ascii, 900 => c16::arm_spec(b"SPOP", &[A::S(1), A::G(1)], c16arm!(SPOP)); // SPOP arm of both parsers (S7), 2 argument(s): keys/values 1 symbolic byte, numbers 1 symbolic digit with optional sign, keywords in any letter case
-    c16_armv_hset, "C16", experimental, 12, ascii, 900 => c16::arm_spec(b"HSET", &[A::S(1), A::S(1), A::S(1)], c16arm!(HSET)); // HSET arm of both parsers (S7), 3 argument(s): keys/values 1 symbolic byte, numbers 1 symbolic digit with optional sign, keywords in any letter case
-    c16_armv_hget, "C16", experimental, 12, ascii, 900 => c16::arm_spec(b"HGET", &[A::S(1), A::S(1)], c16arm!(HGET)); // HGET arm of both parsers (S7), 2 argument(s): keys/values 1 symbolic byte, numbers 1 symbolic digit with optional sign, keywords in any letter case
-    c16_armv_hdel, "C16", experimental, 12, ascii, 900 => c16::arm_spec(b"HDEL", &[A::S(1), A::S(1)], c16arm!(HDEL)); // HDEL arm of both parsers (S7), 2 argument(s): keys/values 1 symbolic byte, numbers 1 symbolic digit with optional sign, keywords in any letter case
-    c16_armv_hgetall, "C16", experimental, 12, ascii, 900 => c16::arm_spec(b"HGETALL", &[A::S(1)], c16arm!(HGETALL)); // HGETALL arm of both parsers (S7), 1 argument(s): keys/values 1 symbolic byte, numbers 1 symbolic digit with optional sign, keywords in any letter case
-    c16_armv_hlen, "C16", experimental, 12, ascii, 900 => c16::arm_spec(b"HLEN", &[A::S(1)], c16arm!(HLEN)); // HLEN arm of both parsers (S7), 1 argument(s): keys/values 1 symbolic byte, numbers 1 symbolic digit with optional sign, keywords in any letter case
-    c16_armv_hexists, "C16", experimental, 12, ascii, 900 => c16::arm_spec(b"HEXISTS", &[A::S(1), A::S(1)], c16arm!(HEXISTS)); // HEXISTS arm of both parsers (S7), 2 argument(s): keys/values 1 symbolic byte, numbers 1 symbolic digit with optional sign, keywords in any letter case
-    c16_armv_hincrby, "C16", experimental, 12, ascii, 900 => c16::arm_spec(b"HINCRBY", &[A::S(1), A::S(1), A::D(1)], c16arm!(HINCRBY)); // HINCRBY arm of both parsers (S7), 3 argument(s): keys/values 1 symbolic byte, numbers 1 symbolic digit with optional sign, keywords in any letter case
-    c16_armv_zscore, "C16", experimental, 12, ascii, 900 => c16::arm_spec(b"ZSCORE", &[A::S(1), A::S(1)], c16arm!(ZSCORE)); // ZSCORE arm of both parsers (S7), 2 argument(s): keys/values 1 symbolic byte, numbers 1 symbolic digit with optional sign, keywords in any letter case
-    c16_armv_zrank, "C16", experimental, 12, ascii, 900 => c16::arm_spec(b"ZRANK", &[A::S(1), A::S(1)], c16arm!(ZRANK)); // ZRANK arm of both parsers (S7), 2 argument(s): keys/values 1 symbolic byte, numbers 1 symbolic digit with optional sign, keywords in any letter case
-    c16_armv_zrem, "C16", experimental, 12, ascii, 900 => c16::arm_spec(b"ZREM", &[A::S(1), A::S(1)], c16arm!(ZREM)); // ZREM arm of both parsers (S7), 2 argument(s): keys/values 1 symbolic byte, numbers 1 symbolic digit with optional sign, keywords in any letter case
-    c16_armv_zcard, "C16", experimental, 12, ascii, 900 => c16::arm_spec(b"ZCARD", &[A::S(1)], c16arm!(ZCARD)); // ZCARD arm of both parsers (S7), 1 argument(s): keys/values 1 symbolic byte, numbers 1 symbolic digit with optional sign, keywords in any letter case
-    c16_armv_zrange, "C16", experimental, 12, ascii, 900 => c16::arm_spec(b"ZRANGE", &[A::S(1), A::D(1), A::D(1)], c16arm!(ZRANGE)); // ZRANGE arm of both parsers (S7), 3 argument(s): keys/values 1 symbolic byte, numbers 1 symbolic digit with optional sign, keywords in any letter case
-    c16_armv_zrange_ws, "C16", experimental, 12, ascii, 900 => c16::arm_spec(b"ZRANGE", &[A::S(1), A::D(1), A::D(1), A::K(b"WITHSCORES")], c16arm!(ZRANGE)); // ZRANGE arm of both parsers (S7), 4 argument(s): keys/values 1 symbolic byte, numbers 1 symbolic digit with optional sign, keywords in any letter case
-    c16_armv_mget, "C16", experimental, 12, ascii, 900 => c16::arm_spec(b"MGET", &[A::S(1), A::S(1)], c16arm!(MGET)); // MGET arm of both parsers (S7), 2 argument(s): keys/values 1 symbolic byte, numbers 1 symbolic digit with optional sign, keywords in any letter case
-    c16_armv_getrange, "C16", experimental, 12, ascii, 900 => c16::arm_spec(b"GETRANGE", &[A::S(1), A::D(1), A::D(1)], c16arm!(GETRANGE)); // GETRANGE arm of both parsers (S7), 3 argument(s): keys/values 1 symbolic byte, numbers 1 symbolic digit with optional sign, keywords in any letter case
-    c16_armv_setrange, "C16", experimental, 12, ascii, 900 => c16::arm_spec(b"SETRANGE", &[A::S(1), A::G(1), A::S(1)], c16arm!(SETRANGE)); // SETRANGE arm of both parsers (S7), 3 argument(s): keys/values 1 symbolic byte, numbers 1 symbolic digit with optional sign, keywords in any letter case
-    c16_armv_keys, "C16", experimental, 12, ascii, 900 => c16::arm_spec(b"KEYS", &[A::S(1)], c16arm!(KEYS)); // KEYS arm of both parsers (S7), 1 argument(s): keys/values 1 symbolic byte, numbers 1 symbolic digit with optional sign, keywords in any letter case
-    c16_armv_echo, "C16", experimental, 12, ascii, 900 => c16::arm_spec(b"ECHO", &[A::S(1)], c16arm!(ECHO)); // ECHO arm of both parsers (S7), 1 argument(s): keys/values 1 symbolic byte, numbers 1 symbolic digit with optional sign, keywords in any letter case
-    c16_armv_select, "C16", experimental, 12, ascii, 900 => c16::arm_spec(b"SELECT", &[A::G(1)], c16arm!(SELECT)); // SELECT arm of both parsers (S7), 1 argument(s): keys/values 1 symbolic byte, numbers 1 symbolic digit with optional sign, keywords in any letter case
-    c16_armv_ping, "C16", experimental, 12, ascii, 900 => c16::arm_spec(b"PING", &[], c16arm!(PING)); // PING arm of both parsers (S7), 0 argument(s): keys/values 1 symbolic byte, numbers 1 symbolic digit with optional sign, keywords in any letter case
-    c16_armv_ping_msg, "C16", experimental, 12, ascii, 900 => c16::arm_spec(b"PING", &[A::S(1)], c16arm!(PING)); // PING arm of both parsers (S7), 1 argument(s): keys/values 1 symbolic byte, numbers 1 symbolic digit with optional sign, keywords in any letter case
-    c16_armv_watch, "C16", experimental, 12, ascii, 900 => c16::arm_spec(b"WATCH", &[A::S(1)], c16arm!(WATCH)); // WATCH arm of both parsers (S7), 1 argument(s): keys/values 1 symbolic byte, numbers 1 symbolic digit with optional sign, keywords in any letter case
-    c16_armv_multi, "C16", experimental, 12, ascii, 900 => c16::arm_spec(b"MULTI", &[], c16arm!(MULTI)); // MULTI arm of both parsers (S7), 0 argument(s): keys/values 1 symbolic byte, numbers 1 symbolic digit with optional sign, keywords in any letter case
-    c16_armv_exec, "C16", experimental, 12, ascii, 900 => c16::arm_spec(b"EXEC", &[], c16arm!(EXEC)); // EXEC arm of both parsers (S7), 0 argument(s): keys/values 1 symbolic byte, numbers 1 symbolic digit with optional sign, keywords in any letter case
-    c16_armv_discard, "C16", experimental, 12, ascii, 900 => c16::arm_spec(b"DISCARD", &[], c16arm!(DISCARD)); // DISCARD arm of both parsers (S7), 0 argument(s): keys/values 1 symbolic byte, numbers 1 symbolic digit with optional sign, keywords in any letter case
-    c16_armv_dbsize, "C16", experimental, 12, ascii, 900 => c16::arm_spec(b"DBSIZE", &[], c16arm!(DBSIZE)); // DBSIZE arm of both parsers (S7), 0 argument(s): keys/values 1 symbolic byte, numbers 1 symbolic digit with optional sign, keywords in any letter case
-    c16_armv_flushdb, "C16", experimental, 12, ascii, 900 => c16::arm_spec(b"FLUSHDB", &[], c16arm!(FLUSHDB)); // FLUSHDB arm of both parsers (S7), 0 argument(s): keys/values 1 symbolic byte, numbers 1 symbolic digit with optional sign, keywords in any letter case
-    c18_sync_offer_c2, "C18", experimental, 12, hasher, 900 => c18::sync_offer(); // get_keys_in_buckets, limit 1, two keys in different buckets (depth 1), only the second bucket requested
+    c08_clock_get_c2, "C08", thorough, 6, plain, 600 => c08::clock_monotone(7); // GET (not a mutation)
+    c08_clock_ping_c2, "C08", thorough, 6, plain, 600 => c08::clock_monotone(8); // PING
+    c16_armv_get, "C16", experimental, 12, ascii, 900 => c16::arm_spec(b"GET", &[A::S(1)], c16arm!(GET), |a, b| match (a, b) { (Command::Get(x), Command::Get(y)) => x == y, _ => false }); // GET arm of both parsers (S7), 1 argument(s): keys/values 1 symbolic byte, numbers 1 symbolic digit, keywords in any letter case
+    c16_armv_set, "C16", experimental, 12, ascii, 900 => c16::arm_spec(b"SET", &[A::S(1), A::S(1)], c16arm!(SET), |a, b| match (a, b) { (Command::Set { key: k1, value: v1, ex: e1, px: p1, exat: a1, pxat: q1, nx: n1, xx: x1, get: g1, keepttl: t1 }, Command::Set { key: k2, value: v2, ex: e2, px: p2, exat: a2, pxat: q2, nx: n2, xx: x2, get: g2, keepttl: t2 }) => k1 == k2 && c16::seq(v1, v2) && e1 == e2 && p1 == p2 && a1 == a2 && q1 == q2 && n1 == n2 && x1 == x2 && g1 == g2 && t1 == t2, _ => false }); // SET arm of both parsers (S7), 2 argument(s): keys/values 1 symbolic byte, numbers 1 symbolic digit, keywords in any letter case
+    c16_armv_set_ex, "C16", experimental, 12, ascii, 900 => c16::arm_spec(b"SET", &[A::S(1), A::S(1), A::K(b"EX"), A::D(1)], c16arm!(SET), |a, b| match (a, b) { (Command::Set { key: k1, value: v1, ex: e1, px: p1, exat: a1, pxat: q1, nx: n1, xx: x1, get: g1, keepttl: t1 }, Command::Set { key: k2, value: v2, ex: e2, px: p2, exat: a2, pxat: q2, nx: n2, xx: x2, get: g2, keepttl: t2 }) => k1 == k2 && c16::seq(v1, v2) && e1 == e2 && p1 == p2 && a1 == a2 && q1 == q2 && n1 == n2 && x1 == x2 && g1 == g2 && t1 == t2, _ => false }); // SET arm of both parsers (S7), 4 argument(s): keys/values 1 symbolic byte, numbers 1 symbolic digit, keywords in any letter case
+    c16_armv_set_ex_neg, "C16", experimental, 12, ascii, 900 => c16::arm_spec(b"SET", &[A::S(1), A::S(1), A::K(b"EX"), A::N(1)], c16arm!(SET), |a, b| match (a, b) { (Command::Set { key: k1, value: v1, ex: e1, px: p1, exat: a1, pxat: q1, nx: n1, xx: x1, get: g1, keepttl: t1 }, Command::Set { key: k2, value: v2, ex: e2, px: p2, exat: a2, pxat: q2, nx: n2, xx: x2, get: g2, keepttl: t2 }) => k1 == k2 && c16::seq(v1, v2) && e1 == e2 && p1 == p2 && a1 == a2 && q1 == q2 && n1 == n2 && x1 == x2 && g1 == g2 && t1 == t2, _ => false }); // SET arm of both parsers (S7), 4 argument(s): keys/values 1 symbolic byte, first number negative ('-' + 1 symbolic digit), keywords in any letter case
+    c16_armv_set_px, "C16", experimental, 12, ascii, 900 => c16::arm_spec(b"SET", &[A::S(1), A::S(1), A::K(b"PX"), A::D(1)], c16arm!(SET), |a, b| match (a, b) { (Command::Set { key: k1, value: v1, ex: e1, px: p1, exat: a1, pxat: q1, nx: n1, xx: x1, get: g1, keepttl: t1 }, Command::Set { key: k2, value: v2, ex: e2, px: p2, exat: a2, pxat: q2, nx: n2, xx: x2, get: g2, keepttl: t2 }) => k1 == k2 && c16::seq(v1, v2) && e1 == e2 && p1 == p2 && a1 == a2 && q1 == q2 && n1 == n2 && x1 == x2 && g1 == g2 && t1 == t2, _ => false }); // SET arm of both parsers (S7), 4 argument(s): keys/values 1 symbolic byte, numbers 1 symbolic digit, keywords in any letter case
+    c16_armv_set_px_neg, "C16", experimental, 12, ascii, 900 => c16::arm_spec(b"SET", &[A::S(1), A::S(1), A::K(b"PX"), A::N(1)], c16arm!(SET), |a, b| match (a, b) { (Command::Set { key: k1, value: v1, ex: e1, px: p1, exat: a1, pxat: q1, nx: n1, xx: x1, get: g1, keepttl: t1 }, Command::Set { key: k2, value: v2, ex: e2, px: p2, exat: a2, pxat: q2, nx: n2, xx: x2, get: g2, keepttl: t2 }) => k1 == k2 && c16::seq(v1, v2) && e1 == e2 && p1 == p2 && a1 == a2 && q1 == q2 && n1 == n2 && x1 == x2 && g1 == g2 && t1 == t2, _ => false }); // SET arm of both parsers (S7), 4 argument(s): keys/values 1 symbolic byte, first number negative ('-' + 1 symbolic digit), keywords in any letter case
+    c16_armv_set_nx, "C16", experimental, 12, ascii, 900 => c16::arm_spec(b"SET", &[A::S(1), A::S(1), A::K(b"NX")], c16arm!(SET), |a, b| match (a, b) { (Command::Set { key: k1, value: v1, ex: e1, px: p1, exat: a1, pxat: q1, nx: n1, xx: x1, get: g1, keepttl: t1 }, Command::Set { key: k2, value: v2, ex: e2, px: p2, exat: a2, pxat: q2, nx: n2, xx: x2, get: g2, keepttl: t2 }) => k1 == k2 && c16::seq(v1, v2) && e1 == e2 && p1 == p2 && a1 == a2 && q1 == q2 && n1 == n2 && x1 == x2 && g1 == g2 && t1 == t2, _ => false }); // SET arm of both parsers (S7), 3 argument(s): keys/values 1 symbolic byte, numbers 1 symbolic digit, keywords in any letter case
+    c16_armv_set_xx_get, "C16", experimental, 12, ascii, 900 => c16::arm_spec(b"SET", &[A::S(1), A::S(1), A::K(b"XX"), A::K(b"GET")], c16arm!(SET), |a, b| match (a, b) { (Command::Set { key: k1, value: v1, ex: e1, px: p1, exat: a1, pxat: q1, nx: n1, xx: x1, get: g1, keepttl: t1 }, Command::Set { key: k2, value: v2, ex: e2, px: p2, exat: a2, pxat: q2, nx: n2, xx: x2, get: g2, keepttl: t2 }) => k1 == k2 && c16::seq(v1, v2) && e1 == e2 && p1 == p2 && a1 == a2 && q1 == q2 && n1 == n2 && x1 == x2 && g1 == g2 && t1 == t2, _ => false }); // SET arm of both parsers (S7), 4 argument(s): keys/values 1 symbolic byte, numbers 1 symbolic digit, keywords in any letter case
+    c16_armv_setex, "C16", experimental, 12, ascii, 900 => c16::arm_spec(b"SETEX", &[A::S(1), A::D(1), A::S(1)], c16arm!(SETEX), |a, b| match (a, b) { (Command::Set { key: k1, value: v1, ex: e1, px: p1, exat: a1, pxat: q1, nx: n1, xx: x1, get: g1, keepttl: t1 }, Command::Set { key: k2, value: v2, ex: e2, px: p2, exat: a2, pxat: q2, nx: n2, xx: x2, get: g2, keepttl: t2 }) => k1 == k2 && c16::seq(v1, v2) && e1 == e2 && p1 == p2 && a1 == a2 && q1 == q2 && n1 == n2 && x1 == x2 && g1 == g2 && t1 == t2, _ => false }); // SETEX arm of both parsers (S7), 3 argument(s): keys/values 1 symbolic byte, numbers 1 symbolic digit, keywords in any letter case
+    c16_armv_setex_neg, "C16", experimental, 12, ascii, 900 => c16::arm_spec(b"SETEX", &[A::S(1), A::N(1), A::S(1)], c16arm!(SETEX), |a, b| match (a, b) { (Command::Set { key: k1, value: v1, ex: e1, px: p1, exat: a1, pxat: q1, nx: n1, xx: x1, get: g1, keepttl: t1 }, Command::Set { key: k2, value: v2, ex: e2, px: p2, exat: a2, pxat: q2, nx: n2, xx: x2, get: g2, keepttl: t2 }) => k1 == k2 && c16::seq(v1, v2) && e1 == e2 && p1 == p2 && a1 == a2 && q1 == q2 && n1 == n2 && x1 == x2 && g1 == g2 && t1 == t2, _ => false }); // SETEX arm of both parsers (S7), 3 argument(s): keys/values 1 symbolic byte, first number negative ('-' + 1 symbolic digit), keywords in any letter case
+    c16_armv_psetex, "C16", experimental, 12, ascii, 900 => c16::arm_spec(b"PSETEX", &[A::S(1), A::D(1), A::S(1)], c16arm!(PSETEX), |a, b| match (a, b) { (Command::Set { key: k1, value: v1, ex: e1, px: p1, exat: a1, pxat: q1, nx: n1, xx: x1, get: g1, keepttl: t1 }, Command::Set { key: k2, value: v2, ex: e2, px: p2, exat: a2, pxat: q2, nx: n2, xx: x2, get: g2, keepttl: t2 }) => k1 == k2 && c16::seq(v1, v2) && e1 == e2 && p1 == p2 && a1 == a2 && q1 == q2 && n1 == n2 && x1 == x2 && g1 == g2 && t1 == t2, _ => false }); // PSETEX arm of both parsers (S7), 3 argument(s): keys/values 1 symbolic byte, numbers 1 symbolic digit, keywords in any letter case
+    c16_armv_psetex_neg, "C16", experimental, 12, ascii, 900 => c16::arm_spec(b"PSETEX", &[A::S(1), A::N(1), A::S(1)], c16arm!(PSETEX), |a, b| match (a, b) { (Command::Set { key: k1, value: v1, ex: e1, px: p1, exat: a1, pxat: q1, nx: n1, xx: x1, get: g1, keepttl: t1 }, Command::Set { key: k2, value: v2, ex: e2, px: p2, exat: a2, pxat: q2, nx: n2, xx: x2, get: g2, keepttl: t2 }) => k1 == k2 && c16::seq(v1, v2) && e1 == e2 && p1 == p2 && a1 == a2 && q1 == q2 && n1 == n2 && x1 == x2 && g1 == g2 && t1 == t2, _ => false }); // PSETEX arm of both parsers (S7), 3 argument(s): keys/values 1 symbolic byte, first number negative ('-' + 1 symbolic digit), keywords in any letter case
+    c16_armv_setnx, "C16", experimental, 12, ascii, 900 => c16::arm_spec(b"SETNX", &[A::S(1), A::S(1)], c16arm!(SETNX), |a, b| match (a, b) { (Command::SetNx(k1, v1), Command::SetNx(k2, v2)) => k1 == k2 && c16::seq(v1, v2), _ => false }); // SETNX arm of both parsers (S7), 2 argument(s): keys/values 1 symbolic byte, numbers 1 symbolic digit, keywords in any letter case
+    c16_armv_getset, "C16", experimental, 12, ascii, 900 => c16::arm_spec(b"GETSET", &[A::S(1), A::S(1)], c16arm!(GETSET), |a, b| match (a, b) { (Command::GetSet(k1, v1), Command::GetSet(k2, v2)) => k1 == k2 && c16::seq(v1, v2), _ => false }); // GETSET arm of both parsers (S7), 2 argument(s): keys/values 1 symbolic byte, numbers 1 symbolic digit, keywords in any letter case
+    c16_armv_append, "C16", experimental, 12, ascii, 900 => c16::arm_spec(b"APPEND", &[A::S(1), A::S(1)], c16arm!(APPEND), |a, b| match (a, b) { (Command::Append(k1, v1), Command::Append(k2, v2)) => k1 == k2 && c16::seq(v1, v2), _ => false }); // APPEND arm of both parsers (S7), 2 argument(s): keys/values 1 symbolic byte, numbers 1 symbolic digit, keywords in any letter case
+    c16_armv_strlen, "C16", experimental, 12, ascii, 900 => c16::arm_spec(b"STRLEN", &[A::S(1)], c16arm!(STRLEN), |a, b| match (a, b) { (Command::StrLen(x), Command::StrLen(y)) => x == y, _ => false }); // STRLEN arm of both parsers (S7), 1 argument(s): keys/values 1 symbolic byte, numbers 1 symbolic digit, keywords in any letter case
+    c16_armv_incr, "C16", experimental, 12, ascii, 900 => c16::arm_spec(b"INCR", &[A::S(1)], c16arm!(INCR), |a, b| match (a, b) { (Command::Incr(x), Command::Incr(y)) => x == y, _ => false }); // INCR arm of both parsers (S7), 1 argument(s): keys/values 1 symbolic byte, numbers 1 symbolic digit, keywords in any letter case
+    c16_armv_decr, "C16", experimental, 12, ascii, 900 => c16::arm_spec(b"DECR", &[A::S(1)], c16arm!(DECR), |a, b| match (a, b) { (Command::Decr(x), Command::Decr(y)) => x == y, _ => false }); // DECR arm of both parsers (S7), 1 argument(s): keys/values 1 symbolic byte, numbers 1 symbolic digit, keywords in any letter case
+    c16_armv_incrby, "C16", experimental, 12, ascii, 900 => c16::arm_spec(b"INCRBY", &[A::S(1), A::D(1)], c16arm!(INCRBY), |a, b| match (a, b) { (Command::IncrBy(k1, n1), Command::IncrBy(k2, n2)) => k1 == k2 && n1 == n2, _ => false }); // INCRBY arm of both parsers (S7), 2 argument(s): keys/values 1 symbolic byte, numbers 1 symbolic digit, keywords in any letter case
+    c16_armv_incrby_neg, "C16", experimental, 12, ascii, 900 => c16::arm_spec(b"INCRBY", &[A::S(1), A::N(1)], c16arm!(INCRBY), |a, b| match (a, b) { (Command::IncrBy(k1, n1), Command::IncrBy(k2, n2)) => k1 == k2 && n1 == n2, _ => false }); // INCRBY arm of both parsers (S7), 2 argument(s): keys/values 1 symbolic byte, first number negative ('-' + 1 symbolic digit), keywords in any letter case
+    c16_armv_decrby, "C16", experimental, 12, ascii, 900 => c16::arm_spec(b"DECRBY", &[A::S(1), A::D(1)], c16arm!(DECRBY), |a, b| match (a, b) { (Command::DecrBy(k1, n1), Command::DecrBy(k2, n2)) => k1 == k2 && n1 == n2, _ => false }); // DECRBY arm of both parsers (S7), 2 argument(s): keys/values 1 symbolic byte, numbers 1 symbolic digit, keywords in any letter case
+    c16_armv_decrby_neg, "C16", experimental, 12, ascii, 900 => c16::arm_spec(b"DECRBY", &[A::S(1), A::N(1)], c16arm!(DECRBY), |a, b| match (a, b) { (Command::DecrBy(k1, n1), Command::DecrBy(k2, n2)) => k1 == k2 && n1 == n2, _ => false }); // DECRBY arm of both parsers (S7), 2 argument(s): keys/values 1 symbolic byte, first number negative ('-' + 1 symbolic digit), keywords in any letter case
+    c16_armv_del, "C16", experimental, 12, ascii, 900 => c16::arm_spec(b"DEL", &[A::S(1), A::S(1)], c16arm!(DEL), |a, b| match (a, b) { (Command::Del(x), Command::Del(y)) => c16::vs1(x, y), _ => false }); // DEL arm of both parsers (S7), 2 argument(s): keys/values 1 symbolic byte, numbers 1 symbolic digit, keywords in any letter case
+    c16_armv_exists, "C16", experimental, 12, ascii, 900 => c16::arm_spec(b"EXISTS", &[A::S(1)], c16arm!(EXISTS), |a, b| match (a, b) { (Command::Exists(x), Command::Exists(y)) => c16::vs1(x, y), _ => false }); // EXISTS arm of both parsers (S7), 1 argument(s): keys/values 1 symbolic byte, numbers 1 symbolic digit, keywords in any letter case
+    c16_armv_type, "C16", experimental, 12, ascii, 900 => c16::arm_spec(b"TYPE", &[A::S(1)], c16arm!(TYPE), |a, b| match (a, b) { (Command::TypeOf(x), Command::TypeOf(y)) => x == y, _ => false }); // TYPE arm of both parsers (S7), 1 argument(s): keys/values 1 symbolic byte, numbers 1 symbolic digit, keywords in any letter case
+    c16_armv_expire, "C16", experimental, 12, ascii, 900 => c16::arm_spec(b"EXPIRE", &[A::S(1), A::D(1)], c16arm!(EXPIRE), |a, b| match (a, b) { (Command::Expire { key: k1, seconds: s1, nx: n1, xx: x1, gt: g1, lt: l1 }, Command::Expire { key: k2, seconds: s2, nx: n2, xx: x2, gt: g2, lt: l2 }) => k1 == k2 && s1 == s2 && n1 == n2 && x1 == x2 && g1 == g2 && l1 == l2, _ => false }); // EXPIRE arm of both parsers (S7), 2 argument(s): keys/values 1 symbolic byte, numbers 1 symbolic digit, keywords in any letter case
+    c16_armv_expire_neg, "C16", experimental, 12, ascii, 900 => c16::arm_spec(b"EXPIRE", &[A::S(1), A::N(1)], c16arm!(EXPIRE), |a, b| match (a, b) { (Command::Expire { key: k1, seconds: s1, nx: n1, xx: x1, gt: g1, lt: l1 }, Command::Expire { key: k2, seconds: s2, nx: n2, xx: x2, gt: g2, lt: l2 }) => k1 == k2 && s1 == s2 && n1 == n2 && x1 == x2 && g1 == g2 && l1 == l2, _ => false }); // EXPIRE arm of both parsers (S7), 2 argument(s): keys/values 1 symbolic byte, first number negative ('-' + 1 symbolic digit), keywords in any letter case
+    c16_armv_expire_nx, "C16", experimental, 12, ascii, 900 => c16::arm_spec(b"EXPIRE", &[A::S(1), A::D(1), A::K(b"NX")], c16arm!(EXPIRE), |a, b| match (a, b) { (Command::Expire { key: k1, seconds: s1, nx: n1, xx: x1, gt: g1, lt: l1 }, Command::Expire { key: k2, seconds: s2, nx: n2, xx: x2, gt: g2, lt: l2 }) => k1 == k2 && s1 == s2 && n1 == n2 && x1 == x2 && g1 == g2 && l1 == l2, _ => false }); // EXPIRE arm of both parsers (S7), 3 argument(s): keys/values 1 symbolic byte, numbers 1 symbolic digit, keywords in any letter case
+    c16_armv_expire_gt, "C16", experimental, 12, ascii, 900 => c16::arm_spec(b"EXPIRE", &[A::S(1), A::D(1), A::K(b"GT")], c16arm!(EXPIRE), |a, b| match (a, b) { (Command::Expire { key: k1, seconds: s1, nx: n1, xx: x1, gt: g1, lt: l1 }, Command::Expire { key: k2, seconds: s2, nx: n2, xx: x2, gt: g2, lt: l2 }) => k1 == k2 && s1 == s2 && n1 == n2 && x1 == x2 && g1 == g2 && l1 == l2, _ => false }); // EXPIRE arm of both parsers (S7), 3 argument(s): keys/values 1 symbolic byte, numbers 1 symbolic digit, keywords in any letter case
+    c16_armv_pexpire, "C16", experimental, 12, ascii, 900 => c16::arm_spec(b"PEXPIRE", &[A::S(1), A::D(1)], c16arm!(PEXPIRE), |a, b| match (a, b) { (Command::PExpire { key: k1, milliseconds: s1, nx: n1, xx: x1, gt: g1, lt: l1 }, Command::PExpire { key: k2, milliseconds: s2, nx: n2, xx: x2, gt: g2, lt: l2 }) => k1 == k2 && s1 == s2 && n1 == n2 && x1 == x2 && g1 == g2 && l1 == l2, _ => false }); // PEXPIRE arm of both parsers (S7), 2 argument(s): keys/values 1 symbolic byte, numbers 1 symbolic digit, keywords in any letter case
+    c16_armv_pexpire_neg, "C16", experimental, 12, ascii, 900 => c16::arm_spec(b"PEXPIRE", &[A::S(1), A::N(1)], c16arm!(PEXPIRE), |a, b| match (a, b) { (Command::PExpire { key: k1, milliseconds: s1, nx: n1, xx: x1, gt: g1, lt: l1 }, Command::PExpire { key: k2, milliseconds: s2, nx: n2, xx: x2, gt: g2, lt: l2 }) => k1 == k2 && s1 == s2 && n1 == n2 && x1 == x2 && g1 == g2 && l1 == l2, _ => false }); // PEXPIRE arm of both parsers (S7), 2 argument(s): keys/values 1 symbolic byte, first number negative ('-' + 1 symbolic digit), keywords in any letter case
+    c16_armv_expireat, "C16", experimental, 12, ascii, 900 => c16::arm_spec(b"EXPIREAT", &[A::S(1), A::D(1)], c16arm!(EXPIREAT), |a, b| match (a, b) { (Command::ExpireAt(k1, n1), Command::ExpireAt(k2, n2)) => k1 == k2 && n1 == n2, _ => false }); // EXPIREAT arm of both parsers (S7), 2 argument(s): keys/values 1 symbolic byte, numbers 1 symbolic digit, keywords in any letter case
+    c16_armv_ttl, "C16", experimental, 12, ascii, 900 => c16::arm_spec(b"TTL", &[A::S(1)], c16arm!(TTL), |a, b| match (a, b) { (Command::Ttl(x), Command::Ttl(y)) => x == y, _ => false }); // TTL arm of both parsers (S7), 1 argument(s): keys/values 1 symbolic byte, numbers 1 symbolic digit, keywords in any letter case
+    c16_armv_pttl, "C16", experimental, 12, ascii, 900 => c16::arm_spec(b"PTTL", &[A::S(1)], c16arm!(PTTL), |a, b| match (a, b) { (Command::Pttl(x), Command::Pttl(y)) => x == y, _ => false }); // PTTL arm of both parsers (S7), 1 argument(s): keys/values 1 symbolic byte, numbers 1 symbolic digit, keywords in any letter case
+    c16_armv_persist, "C16", experimental, 12, ascii, 900 => c16::arm_spec(b"PERSIST", &[A::S(1)], c16arm!(PERSIST), |a, b| match (a, b) { (Command::Persist(x), Command::Persist(y)) => x == y, _ => false }); // PERSIST arm of both parsers (S7), 1 argument(s): keys/values 1 symbolic byte, numbers 1 symbolic digit, keywords in any letter case
+    c16_armv_lpush, "C16", experimental, 12, ascii, 900 => c16::arm_spec(b"LPUSH", &[A::S(1), A::S(1)], c16arm!(LPUSH), |a, b| match (a, b) { (Command::LPush(k1, v1), Command::LPush(k2, v2)) => k1 == k2 && c16::vsds(v1, v2), _ => false }); // LPUSH arm of both parsers (S7), 2 argument(s): keys/values 1 symbolic byte, numbers 1 symbolic digit, keywords in any letter case
+    c16_armv_rpush, "C16", experimental, 12, ascii, 900 => c16::arm_spec(b"RPUSH", &[A::S(1), A::S(1), A::S(1)], c16arm!(RPUSH), |a, b| match (a, b) { (Command::RPush(k1, v1), Command::RPush(k2, v2)) => k1 == k2 && c16::vsds(v1, v2), _ => false }); // RPUSH arm of both parsers (S7), 3 argument(s): keys/values 1 symbolic byte, numbers 1 symbolic digit, keywords in any letter case
+    c16_armv_lpop, "C16", experimental, 12, ascii, 900 => c16::arm_spec(b"LPOP", &[A::S(1)], c16arm!(LPOP), |a, b| match (a, b) { (Command::LPop(x), Command::LPop(y)) => x == y, _ => false }); // LPOP arm of both parsers (S7), 1 argument(s): keys/values 1 symbolic byte, numbers 1 symbolic digit, keywords in any letter case
+    c16_armv_rpop, "C16", experimental, 12, ascii, 900 => c16::arm_spec(b"RPOP", &[A::S(1)], c16arm!(RPOP), |a, b| match (a, b) { (Command::RPop(x), Command::RPop(y)) => x == y, _ => false }); // RPOP arm of both parsers (S7), 1 argument(s): keys/values 1 symbolic byte, numbers 1 symbolic digit, keywords in any letter case
+    c16_armv_llen, "C16", experimental, 12, ascii, 900 => c16::arm_spec(b"LLEN", &[A::S(1)], c16arm!(LLEN), |a, b| match (a, b) { (Command::LLen(x), Command::LLen(y)) => x == y, _ => false }); // LLEN arm of both parsers (S7), 1 argument(s): keys/values 1 symbolic byte, numbers 1 symbolic digit, keywords in any letter case
+    c16_armv_lrange, "C16", experimental, 12, ascii, 900 => c16::arm_spec(b"LRANGE", &[A::S(1), A::D(1), A::D(1)], c16arm!(LRANGE), |a, b| match (a, b) { (Command::LRange(k1, a1, b1), Command::LRange(k2, a2, b2)) => k1 == k2 && a1 == a2 && b1 == b2, _ => false }); // LRANGE arm of both parsers (S7), 3 argument(s): keys/values 1 symbolic byte, numbers 1 symbolic digit, keywords in any letter case
+    c16_armv_lrange_neg, "C16", experimental, 12, ascii, 900 => c16::arm_spec(b"LRANGE", &[A::S(1), A::N(1), A::D(1)], c16arm!(LRANGE), |a, b| match (a, b) { (Command::LRange(k1, a1, b1), Command::LRange(k2, a2, b2)) => k1 == k2 && a1 == a2 && b1 == b2, _ => false }); // LRANGE arm of both parsers (S7), 3 argument(s): keys/values 1 symbolic byte, first number negative ('-' + 1 symbolic digit), keywords in any letter case
+    c16_armv_lindex, "C16", experimental, 12, ascii, 900 => c16::arm_spec(b"LINDEX", &[A::S(1), A::D(1)], c16arm!(LINDEX), |a, b| match (a, b) { (Command::LIndex(k1, n1), Command::LIndex(k2, n2)) => k1 == k2 && n1 == n2, _ => false }); // LINDEX arm of both parsers (S7), 2 argument(s): keys/values 1 symbolic byte, numbers 1 symbolic digit, keywords in any letter case
+    c16_armv_lindex_neg, "C16", experimental, 12, ascii, 900 => c16::arm_spec(b"LINDEX", &[A::S(1), A::N(1)], c16arm!(LINDEX), |a, b| match (a, b) { (Command::LIndex(k1, n1), Command::LIndex(k2, n2)) => k1 == k2 && n1 == n2, _ => false }); // LINDEX arm of both parsers (S7), 2 argument(s): keys/values 1 symbolic byte, first number negative ('-' + 1 symbolic digit), keywords in any letter case
+    c16_armv_lset, "C16", experimental, 12, ascii, 900 => c16::arm_spec(b"LSET", &[A::S(1), A::D(1), A::S(1)], c16arm!(LSET), |a, b| match (a, b) { (Command::LSet(k1, i1, v1), Command::LSet(k2, i2, v2)) => k1 == k2 && i1 == i2 && c16::seq(v1, v2), _ => false }); // LSET arm of both parsers (S7), 3 argument(s): keys/values 1 symbolic byte, numbers 1 symbolic digit, keywords in any letter case
+    c16_armv_ltrim, "C16", experimental, 12, ascii, 900 => c16::arm_spec(b"LTRIM", &[A::S(1), A::D(1), A::D(1)], c16arm!(LTRIM), |a, b| match (a, b) { (Command::LTrim(k1, a1, b1), Command::LTrim(k2, a2, b2)) => k1 == k2 && a1 == a2 && b1 == b2, _ => false }); // LTRIM arm of both parsers (S7), 3 argument(s): keys/values 1 symbolic byte, numbers 1 symbolic digit, keywords in any letter case
+    c16_armv_rpoplpush, "C16", experimental, 12, ascii, 900 => c16::arm_spec(b"RPOPLPUSH", &[A::S(1), A::S(1)], c16arm!(RPOPLPUSH), |a, b| match (a, b) { (Command::RPopLPush(a1, b1), Command::RPopLPush(a2, b2)) => a1 == a2 && b1 == b2, _ => false }); // RPOPLPUSH arm of both parsers (S7), 2 argument(s): keys/values 1 symbolic byte, numbers 1 symbolic digit, keywords in any letter case
+    c16_armv_lmove, "C16", experimental, 12, ascii, 900 => c16::arm_spec(b"LMOVE", &[A::S(1), A::S(1), A::K(b"LEFT"), A::K(b"RIGHT")], c16arm!(LMOVE), |a, b| match (a, b) { (Command::LMove { source: a1, dest: b1, wherefrom: c1, whereto: d1 }, Command::LMove { source: a2, dest: b2, wherefrom: c2, whereto: d2 }) => a1 == a2 && b1 == b2 && c1 == c2 && d1 == d2, _ => false }); // LMOVE arm of both parsers (S7), 4 argument(s): keys/values 1 symbolic byte, numbers 1 symbolic digit, keywords in any letter case
+    c16_armv_lmove_rl, "C16", experimental, 12, ascii, 900 => c16::arm_spec(b"LMOVE", &[A::S(1), A::S(1), A::K(b"RIGHT"), A::K(b"LEFT")], c16arm!(LMOVE), |a, b| match (a, b) { (Command::LMove { source: a1, dest: b1, wherefrom: c1, whereto: d1 }, Command::LMove { source: a2, dest: b2, wherefrom: c2, whereto: d2 }) => a1 == a2 && b1 == b2 && c1 == c2 && d1 == d2, _ => false }); // LMOVE arm of both parsers (S7), 4 argument(s): keys/values 1 symbolic byte, numbers 1 symbolic digit, keywords in any letter case
+    c16_armv_sadd, "C16", experimental, 12, ascii, 900 => c16::arm_spec(b"SADD", &[A::S(1), A::S(1)], c16arm!(SADD), |a, b| match (a, b) { (Command::SAdd(k1, v1), Command::SAdd(k2, v2)) => k1 == k2 && c16::vsds(v1, v2), _ => false }); // SADD arm of both parsers (S7), 2 argument(s): keys/values 1 symbolic byte, numbers 1 symbolic digit, keywords in any letter case
+    c16_armv_srem, "C16", experimental, 12, ascii, 900 => c16::arm_spec(b"SREM", &[A::S(1), A::S(1)], c16arm!(SREM), |a, b| match (a, b) { (Command::SRem(k1, v1), Command::SRem(k2, v2)) => k1 == k2 && c16::vsds(v1, v2), _ => false }); // SREM arm of both parsers (S7), 2 argument(s): keys/values 1 symbolic byte, numbers 1 symbolic digit, keywords in any letter case
+    c16_armv_sismember, "C16", experimental, 12, ascii, 900 => c16::arm_spec(b"SISMEMBER", &[A::S(1), A::S(1)], c16arm!(SISMEMBER), |a, b| match (a, b) { (Command::SIsMember(k1, v1), Command::SIsMember(k2, v2)) => k1 == k2 && c16::seq(v1, v2), _ => false }); // SISMEMBER arm of both parsers (S7), 2 argument(s): keys/values 1 symbolic byte, numbers 1 symbolic digit, keywords in any letter case
+    c16_armv_smembers, "C16", experimental, 12, ascii, 900 => c16::arm_spec(b"SMEMBERS", &[A::S(1)], c16arm!(SMEMBERS), |a, b| match (a, b) { (Command::SMembers(x), Command::SMembers(y)) => x == y, _ => false }); // SMEMBERS arm of both parsers (S7), 1 argument(s): keys/values 1 symbolic byte, numbers 1 symbolic digit, keywords in any letter case
+    c16_armv_scard, "C16", experimental, 12, ascii, 900 => c16::arm_spec(b"SCARD", &[A::S(1)], c16arm!(SCARD), |a, b| match (a, b) { (Command::SCard(x), Command::SCard(y)) => x == y, _ => false }); // SCARD arm of both parsers (S7), 1 argument(s): keys/values 1 symbolic byte, numbers 1 symbolic digit, keywords in any letter case
+    c16_armv_spop, "C16", experimental, 12, ascii, 900 => c16::arm_spec(b"SPOP", &[A::S(1), A::G(1)], c16arm!(SPOP), |a, b| match (a, b) { (Command::SPop(k1, n1), Command::SPop(k2, n2)) => k1 == k2 && n1 == n2, _ => false }); // SPOP arm of both parsers (S7), 2 argument(s): keys/values 1 symbolic byte, numbers 1 symbolic digit, keywords in any letter case
+    c16_armv_hset, "C16", experimental, 12, ascii, 900 => c16::arm_spec(b"HSET", &[A::S(1), A::S(1), A::S(1)], c16arm!(HSET), |a, b| match (a, b) { (Command::HSet(k1, p1), Command::HSet(k2, p2)) => k1 == k2 && p1.len() == p2.len() && p1.len() == 1 && c16::seq(&p1[0].0, &p2[0].0) && c16::seq(&p1[0].1, &p2[0].1), _ => false }); // HSET arm of both parsers (S7), 3 argument(s): keys/values 1 symbolic byte, numbers 1 symbolic digit, keywords in any letter case
+    c16_armv_hget, "C16", experimental, 12, ascii, 900 => c16::arm_spec(b"HGET", &[A::S(1), A::S(1)], c16arm!(HGET), |a, b| match (a, b) { (Command::HGet(k1, v1), Command::HGet(k2, v2)) => k1 == k2 && c16::seq(v1, v2), _ => false }); // HGET arm of both parsers (S7), 2 argument(s): keys/values 1 symbolic byte, numbers 1 symbolic digit, keywords in any letter case
+    c16_armv_hdel, "C16", experimental, 12, ascii, 900 => c16::arm_spec(b"HDEL", &[A::S(1), A::S(1)], c16arm!(HDEL), |a, b| match (a, b) { (Command::HDel(k1, v1), Command::HDel(k2, v2)) => k1 == k2 && c16::vsds(v1, v2), _ => false }); // HDEL arm of both parsers (S7), 2 argument(s): keys/values 1 symbolic byte, numbers 1 symbolic digit, keywords in any letter case
+    c16_armv_hgetall, "C16", experimental, 12, ascii, 900 => c16::arm_spec(b"HGETALL", &[A::S(1)], c16arm!(HGETALL), |a, b| match (a, b) { (Command::HGetAll(x), Command::HGetAll(y)) => x == y, _ => false }); // HGETALL arm of both parsers (S7), 1 argument(s): keys/values 1 symbolic byte, numbers 1 symbolic digit, keywords in any letter case
+    c16_armv_hlen, "C16", experimental, 12, ascii, 900 => c16::arm_spec(b"HLEN", &[A::S(1)], c16arm!(HLEN), |a, b| match (a, b) { (Command::HLen(x), Command::HLen(y)) => x == y, _ => false }); // HLEN arm of both parsers (S7), 1 argument(s): keys/values 1 symbolic byte, numbers 1 symbolic digit, keywords in any letter case
+    c16_armv_hexists, "C16", experimental, 12, ascii, 900 => c16::arm_spec(b"HEXISTS", &[A::S(1), A::S(1)], c16arm!(HEXISTS), |a, b| match (a, b) { (Command::HExists(k1, v1), Command::HExists(k2, v2)) => k1 == k2 && c16::seq(v1, v2), _ => false }); // HEXISTS arm of both parsers (S7), 2 argument(s): keys/values 1 symbolic byte, numbers 1 symbolic digit, keywords in any letter case
+    c16_armv_hincrby, "C16", experimental, 12, ascii, 900 => c16::arm_spec(b"HINCRBY", &[A::S(1), A::S(1), A::D(1)], c16arm!(HINCRBY), |a, b| match (a, b) { (Command::HIncrBy(k1, f1, n1), Command::HIncrBy(k2, f2, n2)) => k1 == k2 && c16::seq(f1, f2) && n1 == n2, _ => false }); // HINCRBY arm of both parsers (S7), 3 argument(s): keys/values 1 symbolic byte, numbers 1 symbolic digit, keywords in any letter case
+    c16_armv_hincrby_neg, "C16", experimental, 12, ascii, 900 => c16::arm_spec(b"HINCRBY", &[A::S(1), A::S(1), A::N(1)], c16arm!(HINCRBY), |a, b| match (a, b) { (Command::HIncrBy(k1, f1, n1), Command::HIncrBy(k2, f2, n2)) => k1 == k2 && c16::seq(f1, f2) && n1 == n2, _ => false }); // HINCRBY arm of both parsers (S7), 3 argument(s): keys/values 1 symbolic byte, first number negative ('-' + 1 symbolic digit), keywords in any letter case
+    c16_armv_zscore, "C16", experimental, 12, ascii, 900 => c16::arm_spec(b"ZSCORE", &[A::S(1), A::S(1)], c16arm!(ZSCORE), |a, b| match (a, b) { (Command::ZScore(k1, v1), Command::ZScore(k2, v2)) => k1 == k2 && c16::seq(v1, v2), _ => false }); // ZSCORE arm of both parsers (S7), 2 argument(s): keys/values 1 symbolic byte, numbers 1 symbolic digit, keywords in any letter case
+    c16_armv_zrank, "C16", experimental, 12, ascii, 900 => c16::arm_spec(b"ZRANK", &[A::S(1), A::S(1)], c16arm!(ZRANK), |a, b| match (a, b) { (Command::ZRank(k1, v1), Command::ZRank(k2, v2)) => k1 == k2 && c16::seq(v1, v2), _ => false }); // ZRANK arm of both parsers (S7), 2 argument(s): keys/values 1 symbolic byte, numbers 1 symbolic digit, keywords in any letter case
+    c16_armv_zrem, "C16", experimental, 12, ascii, 900 => c16::arm_spec(b"ZREM", &[A::S(1), A::S(1)], c16arm!(ZREM), |a, b| match (a, b) { (Command::ZRem(k1, v1), Command::ZRem(k2, v2)) => k1 == k2 && c16::vsds(v1, v2), _ => false }); // ZREM arm of both parsers (S7), 2 argument(s): keys/values 1 symbolic byte, numbers 1 symbolic digit, keywords in any letter case
+    c16_armv_zcard, "C16", experimental, 12, ascii, 900 => c16::arm_spec(b"ZCARD", &[A::S(1)], c16arm!(ZCARD), |a, b| match (a, b) { (Command::ZCard(x), Command::ZCard(y)) => x == y, _ => false }); // ZCARD arm of both parsers (S7), 1 argument(s): keys/values 1 symbolic byte, numbers 1 symbolic digit, keywords in any letter case
+    c16_armv_zrange, "C16", experimental, 12, ascii, 900 => c16::arm_spec(b"ZRANGE", &[A::S(1), A::D(1), A::D(1)], c16arm!(ZRANGE), |a, b| match (a, b) { (Command::ZRange(k1, a1, b1, w1), Command::ZRange(k2, a2, b2, w2)) => k1 == k2 && a1 == a2 && b1 == b2 && w1 == w2, _ => false }); // ZRANGE arm of both parsers (S7), 3 argument(s): keys/values 1 symbolic byte, numbers 1 symbolic digit, keywords in any letter case
+    c16_armv_zrange_ws, "C16", experimental, 12, ascii, 900 => c16::arm_spec(b"ZRANGE", &[A::S(1), A::D(1), A::D(1), A::K(b"WITHSCORES")], c16arm!(ZRANGE), |a, b| match (a, b) { (Command::ZRange(k1, a1, b1, w1), Command::ZRange(k2, a2, b2, w2)) => k1 == k2 && a1 == a2 && b1 == b2 && w1 == w2, _ => false }); // ZRANGE arm of both parsers (S7), 4 argument(s): keys/values 1 symbolic byte, numbers 1 symbolic digit, keywords in any letter case
+    c16_armv_mget, "C16", experimental, 12, ascii, 900 => c16::arm_spec(b"MGET", &[A::S(1), A::S(1)], c16arm!(MGET), |a, b| match (a, b) { (Command::MGet(x), Command::MGet(y)) => c16::vs1(x, y), _ => false }); // MGET arm of both parsers (S7), 2 argument(s): keys/values 1 symbolic byte, numbers 1 symbolic digit, keywords in any letter case
+    c16_armv_getrange, "C16", experimental, 12, ascii, 900 => c16::arm_spec(b"GETRANGE", &[A::S(1), A::D(1), A::D(1)], c16arm!(GETRANGE), |a, b| match (a, b) { (Command::GetRange(k1, a1, b1), Command::GetRange(k2, a2, b2)) => k1 == k2 && a1 == a2 && b1 == b2, _ => false }); // GETRANGE arm of both parsers (S7), 3 argument(s): keys/values 1 symbolic byte, numbers 1 symbolic digit, keywords in any letter case
+    c16_armv_setrange, "C16", experimental, 12, ascii, 900 => c16::arm_spec(b"SETRANGE", &[A::S(1), A::G(1), A::S(1)], c16arm!(SETRANGE), |a, b| match (a, b) { (Command::SetRange(k1, i1, v1), Command::SetRange(k2, i2, v2)) => k1 == k2 && i1 == i2 && c16::seq(v1, v2), _ => false }); // SETRANGE arm of both parsers (S7), 3 argument(s): keys/values 1 symbolic byte, numbers 1 symbolic digit, keywords in any letter case
+    c16_armv_keys, "C16", experimental, 12, ascii, 900 => c16::arm_spec(b"KEYS", &[A::S(1)], c16arm!(KEYS), |a, b| match (a, b) { (Command::Keys(x), Command::Keys(y)) => x == y, _ => false }); // KEYS arm of both parsers (S7), 1 argument(s): keys/values 1 symbolic byte, numbers 1 symbolic digit, keywords in any letter case
+    c16_armv_echo, "C16", experimental, 12, ascii, 900 => c16::arm_spec(b"ECHO", &[A::S(1)], c16arm!(ECHO), |a, b| match (a, b) { (Command::Echo(x), Command::Echo(y)) => c16::seq(x, y), _ => false }); // ECHO arm of both parsers (S7), 1 argument(s): keys/values 1 symbolic byte, numbers 1 symbolic digit, keywords in any letter case
+    c16_armv_select, "C16", experimental, 12, ascii, 900 => c16::arm_spec(b"SELECT", &[A::G(1)], c16arm!(SELECT), |a, b| match (a, b) { (Command::Select(x), Command::Select(y)) => x == y, _ => false }); // SELECT arm of both parsers (S7), 1 argument(s): keys/values 1 symbolic byte, numbers 1 symbolic digit, keywords in any letter case
+    c16_armv_ping, "C16", experimental, 12, ascii, 900 => c16::arm_spec(b"PING", &[], c16arm!(PING), |a, b| match (a, b) { (Command::Ping(x), Command::Ping(y)) => match (x, y) { (Some(p), Some(q)) => c16::seq(p, q), (None, None) => true, _ => false }, _ => false }); // PING arm of both parsers (S7), 0 argument(s): keys/values 1 symbolic byte, numbers 1 symbolic digit, keywords in any letter case
+    c16_armv_ping_msg, "C16", experimental, 12, ascii, 900 => c16::arm_spec(b"PING", &[A::S(1)], c16arm!(PING), |a, b| match (a, b) { (Command::Ping(x), Command::Ping(y)) => match (x, y) { (Some(p), Some(q)) => c16::seq(p, q), (None, None) => true, _ => false }, _ => false }); // PING arm of both parsers (S7), 1 argument(s): keys/values 1 symbolic byte, numbers 1 symbolic digit, keywords in any letter case
+    c16_armv_watch, "C16", experimental, 12, ascii, 900 => c16::arm_spec(b"WATCH", &[A::S(1)], c16arm!(WATCH), |a, b| match (a, b) { (Command::Watch(x), Command::Watch(y)) => c16::vs1(x, y), _ => false }); // WATCH arm of both parsers (S7), 1 argument(s): keys/values 1 symbolic byte, numbers 1 symbolic digit, keywords in any letter case
+    c16_armv_multi, "C16", experimental, 12, ascii, 900 => c16::arm_spec(b"MULTI", &[], c16arm!(MULTI), |a, b| matches!((a, b), (Command::Multi, Command::Multi))); // MULTI arm of both parsers (S7), 0 argument(s): keys/values 1 symbolic byte, numbers 1 symbolic digit, keywords in any letter case
+    c16_armv_exec, "C16", experimental, 12, ascii, 900 => c16::arm_spec(b"EXEC", &[], c16arm!(EXEC), |a, b| matches!((a, b), (Command::Exec, Command::Exec))); // EXEC arm of both parsers (S7), 0 argument(s): keys/values 1 symbolic byte, numbers 1 symbolic digit, keywords in any letter case
+    c16_armv_discard, "C16", experimental, 12, ascii, 900 => c16::arm_spec(b"DISCARD", &[], c16arm!(DISCARD), |a, b| matches!((a, b), (Command::Discard, Command::Discard))); // DISCARD arm of both parsers (S7), 0 argument(s): keys/values 1 symbolic byte, numbers 1 symbolic digit, keywords in any letter case
+    c16_armv_dbsize, "C16", experimental, 12, ascii, 900 => c16::arm_spec(b"DBSIZE", &[], c16arm!(DBSIZE), |a, b| matches!((a, b), (Command::DbSize, Command::DbSize))); // DBSIZE arm of both parsers (S7), 0 argument(s): keys/values 1 symbolic byte, numbers 1 symbolic digit, keywords in any letter case
+    c16_armv_flushdb, "C16", experimental, 12, ascii, 900 => c16::arm_spec(b"FLUSHDB", &[], c16arm!(FLUSHDB), |a, b| matches!((a, b), (Command::FlushDb, Command::FlushDb))); // FLUSHDB arm of both parsers (S7), 0 argument(s): keys/values 1 symbolic byte, numbers 1 symbolic digit, keywords in any letter case
+    c18_sync_offer_c2, "C18", quick, 12, hasher, 900 => c18::sync_offer(); // get_keys_in_buckets, limit 1, two keys in different buckets (depth 8), only the second bucket requested
     c18_sync_rounds_3_c2, "C18", experimental, 12, hasher, 900 => c18::sync_rounds(3); // 2 keys in one bucket, limit 1, 3 rounds of offer+apply: the peer must hold both
+    c01_pexpire_opts_c2, "C01", experimental, 6, plain, 1500 => c01::expire_options(1); // PEXPIRE none|NX|XX|GT|LT, ms = any i64
+    c01_empty_srem_c2, "C01", experimental, 6, plain, 1200 => c01::empty_collection_removed(3); // SREM of the last / not the last element
+    c01_empty_hdel_c2, "C01", experimental, 6, plain, 1200 => c01::empty_collection_removed(4); // HDEL of the last / not the last element
+    c01_empty_zrem_c2, "C01", experimental, 6, plain, 1200 => c01::empty_collection_removed(5); // ZREM of the last / not the last element
+    c17_wrongtype_incrby_list_c2, "C17", experimental, 6, plain, 1500 => c17::wrong_type(0); // 4-key world of every type, symbolic arguments
+    c17_wrongtype_append_hash_c2, "C17", experimental, 6, plain, 1500 => c17::wrong_type(1); // 4-key world of every type, symbolic arguments
+    c17_wrongtype_getrange_list_c2, "C17", experimental, 6, plain, 1500 => c17::wrong_type(2); // 4-key world of every type, symbolic arguments
+    c17_wrongtype_hset_list_c2, "C17", experimental, 6, plain, 1500 => c17::wrong_type(6); // 4-key world of every type, symbolic arguments
+    c17_wrongtype_sadd_hash_c2, "C17", experimental, 6, plain, 1500 => c17::wrong_type(7); // 4-key world of every type, symbolic arguments
+    c17_wrongtype_lpop_hash_c2, "C17", experimental, 6, plain, 1500 => c17::wrong_type(9); // 4-key world of every type, symbolic arguments
+    c17_wrongtype_getset_list_c2, "C17", experimental, 6, plain, 1500 => c17::wrong_type(10); // 4-key world of every type, symbolic arguments
+    c17_wrongtype_setget_list_c2, "C17", experimental, 6, plain, 1500 => c17::wrong_type(11); // 4-key world of every type, symbolic arguments
+    c17_wrongtype_rpoplpush_to_string_c2, "C17", experimental, 6, plain, 1500 => c17::wrong_type(12); // 4-key world of every type, symbolic arguments
+    c17_badargs_incr_overflow_c2, "C17", experimental, 24, plain, 1500 => c17::bad_args(0); // right-typed key, failing symbolic arguments
+    c17_badargs_incr_nonnumber_c2, "C17", experimental, 24, plain, 1500 => c17::bad_args(1); // right-typed key, failing symbolic arguments
+    c17_badargs_lset_range_c2, "C17", experimental, 24, plain, 1500 => c17::bad_args(2); // right-typed key, failing symbolic arguments
+    c17_badargs_setrange_huge_c2, "C17", experimental, 24, plain, 1500 => c17::bad_args(3); // right-typed key, failing symbolic arguments
+    c17_badargs_expire_range_c2, "C17", experimental, 24, plain, 1500 => c17::bad_args(5); // right-typed key, failing symbolic arguments
+    c17_badargs_hincrby_nonnumber_c2, "C17", experimental, 24, plain, 1500 => c17::bad_args(6); // right-typed key, failing symbolic arguments
+    c17_readonly_get_c2, "C17", experimental, 6, plain, 1500 => c17::read_only(0); // read-only op on a symbolic key of any type or a missing key
+    c17_readonly_strlen_c2, "C17", experimental, 6, plain, 1500 => c17::read_only(1); // read-only op on a symbolic key of any type or a missing key
+    c17_readonly_getrange_c2, "C17", experimental, 6, plain, 1500 => c17::read_only(2); // read-only op on a symbolic key of any type or a missing key
+    c17_readonly_llen_c2, "C17", experimental, 6, plain, 1500 => c17::read_only(3); // read-only op on a symbolic key of any type or a missing key
+    c17_readonly_lindex_c2, "C17", experimental, 6, plain, 1500 => c17::read_only(4); // read-only op on a symbolic key of any type or a missing key
+    c17_readonly_lrange_c2, "C17", experimental, 6, plain, 1500 => c17::read_only(5); // read-only op on a symbolic key of any type or a missing key
+    c17_readonly_hget_c2, "C17", experimental, 6, plain, 1500 => c17::read_only(6); // read-only op on a symbolic key of any type or a missing key
+    c17_readonly_hlen_c2, "C17", experimental, 6, plain, 1500 => c17::read_only(7); // read-only op on a symbolic key of any type or a missing key
+    c17_readonly_scard_c2, "C17", experimental, 6, plain, 1500 => c17::read_only(8); // read-only op on a symbolic key of any type or a missing key
+    c17_readonly_type_c2, "C17", experimental, 6, plain, 1500 => c17::read_only(11); // read-only op on a symbolic key of any type or a missing key
+    c01_dispatch_incrby_c2, "C01", experimental, 24, plain, 2400 => c01::dispatch_incrdecr(0); // through execute(): INCRBY k n on a stored one-digit integer, n = any i64
+    c01_dispatch_decrby_c2, "C01", experimental, 24, plain, 2400 => c01::dispatch_incrdecr(1); // through execute(): DECRBY k n on a stored one-digit integer, n = any i64
+    c17_badargs_set_ex_overflow_nokey_c2, "C17", experimental, 24, plain, 1500 => c17::bad_args(8); // same on a missing key
+    c12_twin_c2, "C12", experimental, 40, persist, 900 => c12::twin();
+    c12_persist_flush_1_c2, "C12", experimental, 40, persist, 1800 => c12::persistence_flush(1); // StreamingPersistence::flush, 1 buffered update, every store operation Ok / Err / torn
+    c12_wbuf_flush_1_c2, "C12", experimental, 40, persist, 1800 => c12::write_buffer_flush(1); // WriteBuffer::flush, 1 buffered update, the put Ok / Err / torn
+    c05_twin_c2, "C05", experimental, 8, small, 600 => c05::twin();
+    c05_exec_int_incrby_get_c2, "C05", experimental, 8, small, 1500 => c05::exec_equals_sequential(1, 1, 4); // k = one digit; MULTI INCRBY k n; GET k; EXEC vs sequential, n = any i64
+    c05_edges_c2, "C05", experimental, 8, small, 1500 => c05::edges(); // nested MULTI, EXEC/DISCARD without MULTI, WATCH inside MULTI, UNWATCH
+    c11_plan_2_nock, "C11", quick, 8, plain, 600 => c11::segment_plan(2, -1); // recover()'s segment selection (S9): 2 listed segments (ids 1..2 in either list order), minimum stamps from {5,7} (equal minima included), no checkpoint
+    c11_plan_2_ck0, "C11", experimental, 8, plain, 600 => c11::segment_plan(2, 0); // recover()'s segment selection (S9): 2 listed segments (ids 1..2 in either list order), minimum stamps from {5,7} (equal minima included), checkpoint covering segments up to id 0
+    c11_plan_2_ck1, "C11", experimental, 8, plain, 600 => c11::segment_plan(2, 1); // recover()'s segment selection (S9): 2 listed segments (ids 1..2 in either list order), minimum stamps from {5,7} (equal minima included), checkpoint covering segments up to id 1
+    c11_plan_3_nock, "C11", thorough, 8, plain, 600 => c11::segment_plan(3, -1); // recover()'s segment selection (S9): 3 listed segments (ids 1..3 in either list order), minimum stamps from {5,7} (equal minima included), no checkpoint
+    c11_plan_3_ck0, "C11", experimental, 8, plain, 600 => c11::segment_plan(3, 0); // recover()'s segment selection (S9): 3 listed segments (ids 1..3 in either list order), minimum stamps from {5,7} (equal minima included), checkpoint covering segments up to id 0
+    c11_plan_3_ck1, "C11", experimental, 8, plain, 600 => c11::segment_plan(3, 1); // recover()'s segment selection (S9): 3 listed segments (ids 1..3 in either list order), minimum stamps from {5,7} (equal minima included), checkpoint covering segments up to id 1
+    c11_plan_3_ck2, "C11", experimental, 8, plain, 600 => c11::segment_plan(3, 2); // recover()'s segment selection (S9): 3 listed segments (ids 1..3 in either list order), minimum stamps from {5,7} (equal minima included), checkpoint covering segments up to id 2
+    c13_fold_1_out_c2, "C13", experimental, 8, plain, 900 => c13::fold(1, 2); // 1 update in the compacted segment + 1 update of the key outside the compaction (older segment / checkpoint); cutoff = any u64
+    c13_twin_c1, "C13", thorough, 8, plain, 300 => c13::twin();
+    c13_fold_2_c1, "C13", thorough, 8, plain, 900 => c13::fold(2, 0); // 2 LWW updates of one key in the compacted segments (1-slot container model): stamps, bytes, tombstones symbolic; cutoff = any u64
+    c13_fold_3_c1, "C13", experimental, 8, plain, 1800 => c13::fold(3, 0); // 3 LWW updates
+    c13_fold_1_out_c1, "C13", experimental, 8, plain, 900 => c13::fold(1, 2); // 1 update in the compacted segment + 1 update of the key outside the compaction
+    c13_fold_2_out_c1, "C13", experimental, 8, plain, 1800 => c13::fold(2, 2); // 2 updates compacted + 1 outside
+    c07_hashcrdt_comm_c1, "C07", experimental, 8, plain, 900 => c07::hash_crdt_law(0); // CrdtValue::try_merge on two hashes over field f (present or not, symbolic register): commutative in the field's register
+    c07_hashcrdt_idem_c1, "C07", experimental, 8, plain, 900 => c07::hash_crdt_law(1); // idempotent
+    c07_hashcrdt_assoc_c1, "C07", experimental, 8, plain, 1500 => c07::hash_crdt_law(2); // associative over three hashes (tombstones, missing fields, any stamp order)
+    c10_truncation_two_entries, "C10", experimental, 24, plain, 900 => c11::truncation_two_entries(); // truncate_before(T): closed file with 2 header-only entries (symbolic non-monotone stamps) + a second file; T symbolic
 }
